@@ -381,6 +381,9 @@ class Executor:
         if fr.finfo is not None and name in self.local_names(fr.finfo):
             raise_py(UnboundLocalError, f"cannot access local variable '{name}'")
         spec = self.reg.spec_lookup(name, fr)
+        if spec is None and fr.module is not None and fr.module.__name__.startswith("contracts.") \
+                and name not in fr.module.__dict__:
+            spec = self.reg.specs.get(name)  # specification code may use specification primitives
         if spec is not None:
             return spec
         if fr.module is not None and name in fr.module.__dict__:
